@@ -68,6 +68,8 @@ def check(case):
     def counting(x):
         c = next(counter)
         calls.setdefault(x, []).append(c)
+        if x == case.get('none_x'):
+            return None  # None is a legitimate example: cached like any other (the call counter shows recomputation)
         if case.get('unpicklable'):
             return [x, c, (lambda: None)]  # cannot be pickled: the cache may refuse it (never half-handle it)
         return [x, c]  # a mutable example: the consumer may change it in place (step 'mut')
@@ -118,6 +120,7 @@ def check(case):
             want = [[x, i + 1] for i, x in enumerate(xs)]
             if case.get('pre') is not None:
                 want = [[x, calls.get(x, [None])[0]] for x in xs]
+            want = [None if x == case.get('none_x') else w_ for x, w_ in zip(xs, want)]
             if sum(len(v) for v in calls.values()) != n:
                 raise Violation('eager-call-count', f'{desc}\nupstream calls at construction {calls}')
             targets = [ds]
@@ -135,6 +138,12 @@ def check(case):
         def observe(p, v, path):
             nonlocal ever_short
             last.append(v)
+            if xs[p] == case.get('none_x'):
+                if v is not None:
+                    raise Violation(f'not-a-pipeline-value|{path}', f'{desc}\nposition {p} via {path} returned {v!r}; '
+                                                                    f'the pipeline produces None there')
+                paths_used.setdefault(p, set()).add(path)
+                return
             if case.get('unpicklable') and isinstance(v, list) and len(v) == 3:
                 v = v[:2]
             if not (isinstance(v, list) and len(v) == 2 and v[0] == xs[p] and v[1] in calls.get(xs[p], [])):
@@ -174,6 +183,8 @@ def check(case):
             if kind == 'mut':
                 # in-place change of everything the previous access returned: must never reach the cache
                 for obj in last:
+                    if obj is None:
+                        continue
                     obj.append('mutated')
                     obj[1] = -1
                 del last[:]
@@ -308,6 +319,8 @@ def st_case(draw):
             case['pre'] = draw(st.lists(st.integers(0, 5), min_size=0, max_size=4))
     else:
         case['upstream'] = draw(st.sampled_from([None, None, 'tail', 'rev', 'sortrev']))
+    if draw(st.integers(0, 3)) == 0 and not case.get('unpicklable'):
+        case['none_x'] = draw(st.integers(0, n - 1))
     steps = []
     for _ in range(draw(st.integers(1, 9))):
         r = draw(st.integers(0, 11))
